@@ -126,6 +126,17 @@ def body_arrays(h):
     for p, b in enumerate(content):
         want = ite(flat * size + off == p, b, want)
     h.require('peek-at-varptr-gives-element-bytes', got == want)
+    # the value a VARPTR$ pointer designates (DRAW "R=" + VARPTR$(A%(i)), PLAY "X" + VARPTR$(A$(i)))
+    dv = h.call(arr.dereference, vp)
+    if dv[0] != 'ok' or dv[1] is None:
+        h.require('pointer-dereferences', False, dv)
+    else:
+        raw = raw_of(dv[1])
+        wantel = [0] * size
+        for p, b in enumerate(content):
+            e, o2 = divmod(p, size)
+            wantel[o2] = ite(flat == e, b, wantel[o2])
+        h.require('pointer-dereferences-to-the-element', s_and(len(raw) == size, bytes_eq(raw, wantel)), raw)
     # distinct elements / arrays: disjoint ranges
     if len(spec) > 1:
         o = lay[1 - which]
